@@ -23,4 +23,5 @@ props! {
     "c09" c09,
     "c13" c13,
     "c16" c16,
+    "c17" c17,
 }
